@@ -13,6 +13,10 @@ type LogOpts struct {
 	// TsSkew: v1 wrappers whose log-append attribute differs from their inner messages' (what a broker with
 	// LogAppendTime really stores: wrapper flagged, inner messages untouched)
 	TsSkew bool
+	// LeaveOpen: transactions still open at the end of the log are not decided (the log then extends beyond its
+	// last stable offset; only a broker that honours the isolation level of the REQUEST keeps them away from a
+	// read-committed consumer)
+	LeaveOpen bool
 }
 
 type AbortedTxn struct{ Pid, First, Marker int64 }
@@ -21,7 +25,8 @@ type Log struct {
 	Units   []Unit
 	Aborted []AbortedTxn
 	Base    int64 // first offset
-	End     int64 // last offset + 1
+	End     int64 // last offset + 1 (high watermark)
+	LSO     int64 // last stable offset: first offset of the earliest still open transaction, End if none
 }
 
 func rbytes(r *hlib.Rand, allowNil bool) []byte {
@@ -223,12 +228,18 @@ func GenLog(r *hlib.Rand, o LogOpts) *Log {
 			}
 		}
 	}
-	for _, pid := range pids { // decide every open transaction (the fetched range lies below the last stable offset)
-		if opened[pid] != nil {
+	for _, pid := range pids { // decide the open transactions (unless some are to stay open)
+		if opened[pid] != nil && !(o.LeaveOpen && r.Chance(2, 3)) {
 			closeTxn(pid, r.Chance(1, 2))
 		}
 	}
 	lg.End = nx
+	lg.LSO = nx
+	for _, op := range opened {
+		if op.first < lg.LSO {
+			lg.LSO = op.first
+		}
+	}
 	return lg
 }
 
@@ -333,4 +344,42 @@ func (lg *Log) Fetch(r *hlib.Rand, ver int16, o int64, budget int, maxUnits int,
 		resp.Aborted = lg.FaithfulIndex(r, o, hi, loose)
 	}
 	return resp
+}
+
+// FetchIso is Fetch by a broker that honours the isolation level of the REQUEST (what Kafka does):
+// read committed: only units below the last stable offset, with the aborted-transaction index of the range;
+// read uncommitted: units up to the high watermark and NO aborted-transaction index.
+func (lg *Log) FetchIso(r *hlib.Rand, ver int16, o int64, budget int, maxUnits int, keepPartial bool, loose bool, readCommitted bool) *Resp {
+	limit := lg.End
+	if readCommitted {
+		limit = lg.LSO
+	}
+	n := len(lg.Units)
+	for n > 0 && lg.Units[n-1].Hi() >= limit {
+		n--
+	}
+	view := &Log{Units: lg.Units[:n], Aborted: lg.Aborted, Base: lg.Base, End: limit, LSO: limit}
+	resp := view.Fetch(r, ver, o, budget, maxUnits, keepPartial, loose)
+	if !readCommitted {
+		resp.Aborted = nil
+	}
+	return resp
+}
+
+// VisibleTo: what a consumer configured with the isolation level has to receive from offset start on: read
+// committed - data records of non-transactional batches and committed transactions below the last stable offset;
+// read uncommitted - all data records; never control records.
+func (lg *Log) VisibleTo(rc bool, start int64) []Msg {
+	var want []Msg
+	for _, u := range lg.Units {
+		if !Visible(u, rc) || (rc && u.Hi() >= lg.LSO) {
+			continue
+		}
+		for _, m := range UnitMsgs(u) {
+			if m.Off >= start {
+				want = append(want, m)
+			}
+		}
+	}
+	return want
 }
